@@ -156,8 +156,8 @@ def concrete(t: T, env: dict, funcs: dict | None = None):
                     return getattr(recv, m)(*[ev(y) for y in args])
                 if isinstance(recv, (set, frozenset)) and m in ("issubset", "issuperset"):
                     return getattr(recv, m)(*[ev(y) for y in args])
-                if isinstance(recv, str) and m in ("lower", "upper", "startswith", "endswith"):
-                    return getattr(recv, m)(*[ev(y) for y in args])
+                if isinstance(recv, str) and m in ("lower", "upper", "startswith", "endswith", "format", "join", "strip"):
+                    return getattr(recv, m)(*[ev(y) for y in args], **{k: ev(v) for k, v in kwargs})
                 key = "." + m
                 if key in funcs:
                     return funcs[key](recv, *[ev(y) for y in args], **{k: ev(v) for k, v in kwargs})
